@@ -227,6 +227,64 @@ pub fn c10q_bulk_set_len_before_read() {
 	drop(r);
 }
 
+// ---- zero-sized element type WITH a Drop impl (the per-id ledger cannot work: no room for an id; use counters)
+pub static mut Z_BUILT: usize = 0;
+pub static mut Z_DROPPED: usize = 0;
+pub struct Zt;
+impl Decode for Zt {
+	fn decode<I: Input>(i: &mut I) -> Result<Self, Error> {
+		let _ = i.read_byte()?;
+		unsafe {
+			if Z_BUILT == FAIL_AT { return Err("malformed element".into()) }
+			Z_BUILT += 1;
+		}
+		Ok(Zt)
+	}
+}
+impl Drop for Zt { fn drop(&mut self) { unsafe { Z_DROPPED += 1; assert!(Z_DROPPED <= Z_BUILT, "zero-sized element dropped more often than built"); } } }
+fn h_drop_zst<C: Decode, const N: usize>(count_prefix: Option<u32>) {
+	let bytes: [u8; N] = kani::any();
+	let len: usize = kani::any();
+	kani::assume(len <= N);
+	let f: usize = kani::any();
+	kani::assume(f <= N);
+	unsafe { FAIL_AT = f; }
+	let r = match count_prefix { Some(c) => C::decode(&mut Pre::count32(c, &bytes[..len])), None => C::decode(&mut &bytes[..len]) };
+	assert!(r.is_ok() == (len == N && f >= N));
+	kani::cover!(r.is_err() && unsafe { Z_BUILT } > 0, "reach: failure after some zero-sized elements were built");
+	drop(r);
+	unsafe {
+		assert!(Z_BUILT == min(f, len), "number of constructed zero-sized elements differs from the failure position");
+		assert!(Z_DROPPED == Z_BUILT, "zero-sized elements with a Drop impl were leaked or dropped twice");
+	}
+}
+#[kani::proof] #[kani::unwind(6)] pub fn c10q_zst_array_3() { h_drop_zst::<[Zt; 3], 3>(None) }
+#[kani::proof] #[kani::unwind(6)] pub fn c10q_zst_box_array_2() { h_drop_zst::<Box<[Zt; 2]>, 2>(None) }
+#[kani::proof] #[kani::unwind(6)] pub fn c10q_zst_vec_3() { h_drop_zst::<Vec<Zt>, 3>(Some(3)) }
+#[kani::proof] #[kani::unwind(6)] pub fn c10t_zst_nested() { h_drop_zst::<[[Zt; 2]; 2], 4>(None) }
+#[kani::proof] #[kani::unwind(6)] pub fn c10t_zst_tuple() { h_drop_zst::<(Zt, Zt), 2>(None) }
+
+// ---- a refused allocation must not have been made (else its block is leaked): with a memory limit that refuses the
+// very first announcement, decoding a boxed value must not request ANY heap memory (allocator stubs with allowance 0)
+use crate::with_stubs;
+with_stubs!(le_0, #[kani::unwind(6)] pub fn c10q_refused_box_not_allocated() {
+	let bytes: [u8; 8] = kani::any();
+	let r = Box::<u64>::decode_with_mem_limit(&mut &bytes[..], 1);
+	assert!(r.is_err(), "limit 1 must refuse an 8-byte box");
+	let r2 = alloc::rc::Rc::<[u8; 4]>::decode_with_mem_limit(&mut &bytes[..], 4);
+	assert!(r2.is_err());
+	let r3 = <[Box<u16>; 2]>::decode_with_mem_limit(&mut &bytes[..], 0);
+	assert!(r3.is_err());
+	core::mem::forget((r, r2, r3));
+});
+with_stubs!(le_64, #[kani::unwind(6)] pub fn c10q_refused_second_box() {
+	// first box (8 bytes) admitted, second refused: exactly one 8-byte block may be requested, and it is freed on the error path
+	let bytes: [u8; 16] = kani::any();
+	let r = <(Box<u64>, Box<[u8; 100]>)>::decode_with_mem_limit(&mut &bytes[..], 16);
+	assert!(r.is_err());
+	drop(r);
+});
+
 /// negative twin: a ledger check that expects one element too many must FAIL
 #[kani::proof]
 #[kani::unwind(6)]
